@@ -93,7 +93,7 @@ func Stateful() []Table {
 	stp2 := StorageParams(3600, []float64{0, 10}, []float64{0, 2e6}, []float64{0, 1e5}, []float64{0, 0}, []float64{0, 5})
 	stL := [][]float64{{0, 0, 0, 0, 0, 0}, {20, 0, 200, 0, 0, 0}, {0, 8, 2, 50, 0, 0}, {0, 0, 2, 1, 0, 0}}
 	ts = append(ts, Table{Model: "Storage", Params: [][]float64{stp, stp2}, PNames: []string{"n=3 dt=86400", "n=2 dt=3600"}, Letters: stL, Cost: 3})
-	rsL := [][]float64{{0, 0, 0, 1e5}, {2, 5, 5, 1e5}, {40, 120, 100, 3e6}, {2, 0.5, 0, 1e5}, {0, 5, 20, 5e4}}
+	rsL := [][]float64{{0, 0, 0, 1e5}, {2, 5, 5, 1e5}, {40, 120, 100, 3e6}, {2, 0.5, 0, 1e5}, {0, 5, 20, 5e4}, {2, 0.5, 0, 0}}
 	add("StorageParticulateTrapping", rsL, 1, M{"DeltaT": 86400, "reservoirCapacity": 3e6, "reservoirLength": 4000, "subtractor": 112, "multiplier": 800, "lengthDischargeFactor": 3.28, "lengthDischargePower": -0.2},
 		M{"DeltaT": 86400, "reservoirCapacity": 3e6, "reservoirLength": 0, "subtractor": 112, "multiplier": 800, "lengthDischargeFactor": 3.28, "lengthDischargePower": -0.2})
 	add("StorageTrapAll", rsL, 1, M{})
